@@ -35,4 +35,4 @@ impl CancelIo for CancelIoImpl {
 
 #[cfg(kani)]
 #[path = "/verif/harness/may/io_sys_unix_cancel.rs"]
-mod verif_kani;
+pub(crate) mod verif_kani;
